@@ -759,6 +759,9 @@ def import_rules(ctx, prop, rule_ids, as_rule, text, floor=1):
     from report import Check
 
     chk = ctx.check
+    if ctx.config not in ("default", "test-profile"):
+        # partial builds (single crate, feature subsets) do not contain the other property's crates
+        return
     chk.rule(as_rule, text, floor=floor)
     mod = importlib.import_module(f"props.{prop.lower()}")
     sub = ctx.__class__(prop, ctx.tier, ctx.dir, ctx.config)
